@@ -139,6 +139,21 @@ def curated():
                                                           ('A', 'B', {'se': 'f', 'de': 'e', 'o': 'e', 'i': 't2'})], tags=['data', 'trigger', 'entities']))
     a(mk('ent2fan', ['A', 'B', 'C'], {'A': 'tb', 'B': 'hy', 'C': 'hy'}, [('A', 'C', {'i': 'm', 'de': 'e'}), ('B', 'C', {'i': 't', 'de': 'f'}),
                                                                            ('A', 'C', {'i': 'm', 'se': 'f', 'de': 'f'})], tags=['data', 'trigger', 'entities']))
+    # --- same-time loop in one group feeding a simulator of a sibling group / of the same group (sub-time must not leak across groups;
+    #     future output times from a later sub-step)
+    a(mk('sibloop', [['A', 'B'], ['C']], {'A': 'ev', 'B': 'ev', 'C': 'tb'}, [('A', 'B'), ('B', 'A', {'weak': True}), ('A', 'C', {'i': 'm'})],
+         init={'A': 0}, tags=['weak', 'groups', 'sibling']))
+    a(mk('sibloop_ev', [['A', 'B'], ['C']], {'A': 'ev', 'B': 'ev', 'C': 'ev'}, [('A', 'B'), ('B', 'A', {'weak': True}), ('A', 'C')],
+         init={'A': 0}, tags=['weak', 'groups', 'sibling']))
+    a(mk('loopfeed', [['A', 'B', 'C']], {'A': 'ev', 'B': 'ev', 'C': 'hy'}, [('A', 'B'), ('B', 'A', {'weak': True}), ('A', 'C')],
+         init={'A': 0}, tags=['weak', 'groups', 'future']))
+    # --- one simulator triggered on two tiers of the same time over different weak paths
+    a(mk('weak4', [['P', 'Q', 'R', 'D']], {'P': 'hy', 'Q': 'ev', 'R': 'hy', 'D': 'ev'},
+         [('P', 'Q', {'weak': True}), ('Q', 'D', {'weak': True}), ('R', 'D', {'weak': True, 'i': 't2'})], tags=['weak', 'four']))
+    # --- triangle of time-based simulators; one producer pulled with different shifts by two consumers
+    a(mk('tbtri', ['A', 'B', 'C'], {'A': 'tb', 'B': 'tb', 'C': 'tb'}, [('A', 'B'), ('B', 'C'), ('A', 'C', {'i': 'm2'})], tags=['data', 'lazy']))
+    a(mk('fanout_shift2', ['A', 'B', 'C'], {'A': 'tb', 'B': 'tb', 'C': 'tb'}, [('A', 'B', {'k': 2}), ('A', 'C')], tags=['data', 'prune']))
+    a(mk('fanout_shift2r', ['A', 'C', 'B'], {'A': 'tb', 'B': 'tb', 'C': 'tb'}, [('A', 'B', {'k': 2}), ('A', 'C')], tags=['data', 'prune']))
     # --- multi-edges between one pair with different delays
     a(mk('multi_shift', ['A', 'B'], {'A': 'ev', 'B': 'ev'}, [('A', 'B'), ('A', 'B', {'k': 2, 'i': 't2'})], init={'A': 0}, tags=['multi', 'trigger']))
     a(mk('multi_shift_rev', ['A', 'B'], {'A': 'ev', 'B': 'ev'}, [('A', 'B', {'k': 2}), ('A', 'B', {'i': 't2'})], init={'A': 0}, tags=['multi', 'trigger']))
